@@ -20,6 +20,7 @@ type cycle struct {
 	fromMail bool // start the cycle with a buffer another task handed over, if there is one
 	putArg   uint64
 	second   bool // hold a second buffer during this cycle
+	extra    int  // long runs: this many further buffers are obtained in one burst and returned together
 	pool     int  // which pool the cycle works on (a second pool of another shape may live next to pool 0)
 }
 
@@ -56,6 +57,23 @@ func (h *H[T]) C11(rc *runCtx) *Violation {
 			a.Length = a.Capacity
 		}
 	}
+	// Two rare classes of runs: big buffers (size-dependent paths such as
+	// parallel clearing, with few tasks and cycles), and long runs (hundreds of
+	// cycles on a tiny shape with many tasks: counters, batches and trims that
+	// only matter after a thousand operations).
+	maxG, maxM, class := rc.b.MaxG, rc.b.MaxM, "ordinary"
+	switch {
+	case prog.Draw(rc.b.HugeOneIn) == rc.b.HugeOneIn-1:
+		c := 1 + prog.Draw(2)
+		k := []int{32768, 40000, 65536, 1 << 17}[prog.Draw(4)] / c
+		a = signal.Allocator{Channels: c, Length: []int{0, 1, k}[prog.Draw(3)], Capacity: k}
+		maxG, maxM, class = 4, 2, "big"
+	case prog.Draw(rc.b.LongOneIn) == rc.b.LongOneIn-1:
+		a = signal.Allocator{Channels: 1 + prog.Draw(2), Length: prog.Draw(2), Capacity: 1 + prog.Draw(3)}
+		maxG, maxM, class = 8+prog.Draw(9), 60+prog.Draw(140), "long"
+		sim.MaxSteps = 1 << 22
+	}
+	rc.tally("run_class", class)
 	env := drawPoolEnv(rc)
 	// Tasks, cycles and use operations are drawn as nested units, each
 	// preceded by the draw that decides whether it exists (0 = stop), so that a
@@ -73,18 +91,21 @@ func (h *H[T]) C11(rc *runCtx) *Violation {
 	}
 	contG := []int{2, 3, 8, 32}[prog.Draw(4)]
 	contM := []int{2, 4, 8}[prog.Draw(3)]
+	if class == "long" {
+		contG, contM = 1<<20, 1<<20
+	}
 	shareMode := prog.Draw(3) // 0 one shared pointer, 1 per-task copies by value, 2 mixed per cycle
 	var progs [][]cycle
 	estSteps := 0
-	for t := 0; t < rc.b.MaxG; t++ {
+	for t := 0; t < maxG; t++ {
 		prog.Begin()
 		if t >= 2 && !prog.More(contG) {
 			prog.End()
 			break
 		}
 		var cycles []cycle
-		maxM := rc.b.MaxM
-		if t >= 16 && maxM > 4 {
+		maxM := maxM
+		if t >= 16 && maxM > 4 && class != "long" {
 			maxM = 4
 		}
 		for c := 0; c < maxM; c++ {
@@ -131,7 +152,10 @@ func (h *H[T]) C11(rc *runCtx) *Violation {
 					cy.putMode = 0
 				}
 			}
-			estSteps += 8 + len(cy.uses) + cy.hold
+			if class == "long" && prog.Draw(4) == 3 {
+				cy.extra = 1 + prog.Draw(24) // deep pools and bursts of gets
+			}
+			estSteps += 8 + len(cy.uses) + cy.hold + 4*cy.extra
 			cycles = append(cycles, cy)
 			prog.End()
 		}
@@ -149,6 +173,14 @@ func (h *H[T]) C11(rc *runCtx) *Violation {
 	sim.StickyP = []int{2, 4, 8, 16}[sim.Sched.Draw(4)]
 	drawInner(sim)
 	drawClock(sim)
+	if class == "long" {
+		// pre-emption must still be available after thousands of steps, and a
+		// stalled task must be able to miss a whole burst of other tasks' work
+		sim.InnerBudget = 4000
+		if sim.StallMax > 0 && sim.Sched.Draw(2) == 1 {
+			sim.StallMax = 512
+		}
+	}
 	// Inner pre-emption is spent where it matters: inside the pool operations
 	// and the use operations, not inside the harness's own check loops.
 	sim.InnerSites = 1<<sGet | 1<<sPut | 1<<sUse
@@ -376,6 +408,17 @@ func (h *H[T]) C11(rc *runCtx) *Violation {
 					}
 					two++
 				}
+				var extras []*signal.Buffer[T]
+				for j := 0; j < cy.extra; j++ {
+					e, ok := acquire(cy, cyc, 2+j%14)
+					if !ok {
+						return
+					}
+					if !stamp(e, cy, cyc, 2+j%14) {
+						return
+					}
+					extras = append(extras, e)
+				}
 				var hs hist
 				for _, u := range cy.uses {
 					t.Yield(sUse)
@@ -403,6 +446,14 @@ func (h *H[T]) C11(rc *runCtx) *Violation {
 				}
 				if b2 != nil && !verify(b2, cy, cyc, 1) {
 					return
+				}
+				for j, e := range extras {
+					if !verify(e, cy, cyc, 2+j%14) {
+						return
+					}
+					cyE := *cy
+					cyE.putMode = 0
+					release(e, e, &cyE, cyc)
 				}
 				release(b, hdr, cy, cyc)
 				if b2 != nil {
